@@ -20,7 +20,7 @@ func init() {
 // ---------------------------------------------------------------- the JavaScript side
 
 const c08Prelude = `
-var __recv, __log="", __script={}, __sn=0, __si=0, __objs={};
+var __recv, __log="", __script={}, __sn=0, __si=0, __objs={}, __isprim=false, __wrap;
 function __obj(id){
   if (!Object.prototype.hasOwnProperty.call(__objs,id)) {
     var f=function(){ return __play(id); };
@@ -40,6 +40,14 @@ function __v(x){
   if (x===undefined) return "u"; if (x===null) return "n"; if (x===true) return "T"; if (x===false) return "F";
   if (typeof x==="number") return "d"+__hexnum(x);
   if (typeof x==="string") return "s"+__hexstr(x);
+  if (__isprim && typeof x==="object") {
+    // ToObject(primitive receiver): the same wrapper object must be seen every time
+    var c=Object.prototype.toString.call(x);
+    if ((c==="[object String]"||c==="[object Number]"||c==="[object Boolean]") && x.valueOf()===__recv) {
+      if (__wrap===undefined) __wrap=x;
+      return x===__wrap ? "R" : "R2";
+    }
+  }
   if (x===__recv) return "R";
   if (typeof x==="object" && Object.prototype.hasOwnProperty.call(x,"__id")) return "O"+x.__id;
   if (Object.prototype.toString.call(x)==="[object Array]") {
@@ -58,6 +66,7 @@ function __dump(o){
   var names=Object.getOwnPropertyNames(o), is={}, ns={}, nI=0, nN=0;
   for (var j=0;j<names.length;j++){ var k=names[j]; if (k==="length") continue;
     var d=Object.getOwnPropertyDescriptor(o,k);
+    if (typeof d.value==="function") continue;
     var p=__v(d.value)+(d.writable?"1":"0")+(d.enumerable?"1":"0")+(d.configurable?"1":"0");
     if (__iscanon(k)) { is[nI++]=[+k, "i"+k+"="+p]; } else { var hx=__hexstr(k); ns[nN++]=[hx, "n"+hx+"="+p]; } }
   var a=__sorted(is,nI), b=__sorted(ns,nN);
@@ -190,10 +199,15 @@ var c08CallbackMethods = map[string]bool{"every": true, "some": true, "forEach":
 // c08Script builds the program for one history request.
 func c08Script(f []string) string {
 	var sb strings.Builder
-	sb.WriteString("(function(){ var out=\"\", protos=[], rets, ci; __objs={}; __log=\"\"; __sn=0; __si=0;\n")
+	sb.WriteString("(function(){ var out=\"\", protos=[], rets, ci; __objs={}; __log=\"\"; __sn=0; __si=0; __isprim=false; __wrap=undefined;\n")
 	// receiver
-	like := strings.HasPrefix(f[1], "o=")
-	if like {
+	like := strings.HasPrefix(f[1], "o=") || strings.HasPrefix(f[1], "v=")
+	prim := strings.HasPrefix(f[1], "v=")
+	if prim {
+		fmt.Fprintf(&sb, "var a=%s; __recv=a; __isprim=true;\n", jsVal(strings.TrimPrefix(f[1], "v=")))
+	} else if f[1] == "A=" {
+		sb.WriteString("var a=Array.prototype; __recv=a;\n")
+	} else if like {
 		parts := strings.SplitN(strings.TrimPrefix(f[1], "o="), "|", 2)
 		sb.WriteString("var a={};")
 		if parts[0] != "-" {
@@ -231,7 +245,11 @@ func c08Script(f []string) string {
 		sb.WriteString("try { ")
 		switch p[0] {
 		case "put":
-			fmt.Fprintf(&sb, "a[%s]=%s; out+=\"ok|\";", jsKey(p[1]), jsVal(p[2]))
+			sb.WriteString("__script={}; __sn=0; __si=0; __log=\"\"; ")
+			if len(p) > 3 {
+				sb.WriteString(jsScript(p[3]))
+			}
+			fmt.Fprintf(&sb, "try { a[%s]=%s; out+=\"ok\"; } catch(e) { out+=__err(e); } out+=__log+\"|\";", jsKey(p[1]), jsVal(p[2]))
 		case "del":
 			fmt.Fprintf(&sb, "out+=__v(delete a[%s])+\"|\";", jsKey(p[1]))
 		case "def":
@@ -244,7 +262,11 @@ func c08Script(f []string) string {
 					d = append(d, n+":"+map[string]string{"1": "true", "0": "false"}[p[3+i]])
 				}
 			}
-			fmt.Fprintf(&sb, "Object.defineProperty(a,%s,{%s}); out+=\"ok|\";", jsKey(p[1]), strings.Join(d, ","))
+			sb.WriteString("__script={}; __sn=0; __si=0; __log=\"\"; ")
+			if len(p) > 6 {
+				sb.WriteString(jsScript(p[6]))
+			}
+			fmt.Fprintf(&sb, "try { Object.defineProperty(a,%s,{%s}); out+=\"ok\"; } catch(e) { out+=__err(e); } out+=__log+\"|\";", jsKey(p[1]), strings.Join(d, ","))
 		case "frz":
 			sb.WriteString("Object.freeze(a); out+=\"ok|\";")
 		case "seal":
@@ -298,41 +320,52 @@ func c08Script(f []string) string {
 			// scripted conversions of object arguments / of an object-valued length
 			sb.WriteString("__script={}; __sn=0; __si=0; ")
 			if len(p) > 4 {
-				for i, c := range splitList(p[4]) {
-					er := strings.SplitN(c, "~", 2)
-					eff := ""
-					switch er[0][0] {
-					case 'p':
-						eff = "__recv[__recv.length]=" + jsVal(er[0][1:]) + ";"
-					case 'l':
-						eff = "__recv.length=" + jsVal(er[0][1:]) + ";"
-					case 'd':
-						eff = "delete __recv[" + er[0][1:] + "];"
-					}
-					res, thr := "undefined", "null"
-					switch er[1] {
-					case "!T":
-						thr = "function(){return new TypeError(\"scripted\")}"
-					case "!R":
-						thr = "function(){return new RangeError(\"scripted\")}"
-					default:
-						res = jsVal(er[1])
-					}
-					fmt.Fprintf(&sb, "__script[%d]={eff:function(){%s},res:%s,thr:%s}; __sn=%d; ", i, eff, res, thr, i+1)
-				}
+				sb.WriteString(jsScript(p[4]))
 			}
 			call := "a." + name + "(" + strings.Join(args, ",") + ")"
 			if like {
 				call = "Array.prototype." + name + ".call(" + strings.Join(append([]string{"a"}, args...), ",") + ")"
 			}
-			fmt.Fprintf(&sb, "__log=\"\"; ci=0; rets=[%s]; var r; try { r=__v(%s); } catch(e) { r=__err(e); } out+=r+__log+\"|\";", strings.Join(rets, ","), call)
+			fmt.Fprintf(&sb, "__wrap=undefined; __log=\"\"; ci=0; rets=[%s]; var r; try { r=__v(%s); } catch(e) { r=__err(e); } out+=r+__log+\"|\";", strings.Join(rets, ","), call)
 		default:
 			panic("bad step " + st)
 		}
 		sb.WriteString(" } catch(e) { out+=__err(e)+\"|\"; }\n")
 	}
 	sb.WriteString("} finally { for (var i=0;i<protos.length;i++) delete Array.prototype[protos[i]]; }\n")
-	sb.WriteString("return out+__dump(a); })()")
+	if prim {
+		sb.WriteString("return out+\"P\"; })()")
+	} else {
+		sb.WriteString("return out+__dump(a); })()")
+	}
+	return sb.String()
+}
+
+// jsScript builds the scripted conversions `<eff>~<res>,…` of one step.
+func jsScript(script string) string {
+	var sb strings.Builder
+	for i, c := range splitList(script) {
+		er := strings.SplitN(c, "~", 2)
+		eff := ""
+		switch er[0][0] {
+		case 'p':
+			eff = "__recv[__recv.length]=" + jsVal(er[0][1:]) + ";"
+		case 'l':
+			eff = "__recv.length=" + jsVal(er[0][1:]) + ";"
+		case 'd':
+			eff = "delete __recv[" + er[0][1:] + "];"
+		}
+		res, thr := "undefined", "null"
+		switch er[1] {
+		case "!T":
+			thr = "function(){return new TypeError(\"scripted\")}"
+		case "!R":
+			thr = "function(){return new RangeError(\"scripted\")}"
+		default:
+			res = jsVal(er[1])
+		}
+		fmt.Fprintf(&sb, "__script[%d]={eff:function(){%s},res:%s,thr:%s}; __sn=%d; ", i, eff, res, thr, i+1)
+	}
 	return sb.String()
 }
 
@@ -355,13 +388,20 @@ func implC08(line string) string {
 		n, _ := strconv.ParseInt(f[2], 10, 64)
 		return fmt.Sprint(otto.VerifValueToRangeIndex(v, n, f[3] == "1"))
 	case "h":
-		vm := c08Pool.Get().(*otto.Otto)
+		var vm *otto.Otto
+		if f[1] == "A=" {
+			vm = c08NewVM() // Array.prototype must be pristine (inherited-property requests leave its length raised)
+		} else {
+			vm = c08Pool.Get().(*otto.Otto)
+		}
 		v, err := vm.Run(c08Script(f))
 		if err != nil {
 			// the VM may hold polluted prototypes: drop it
 			return "run-error:" + strings.ReplaceAll(err.Error(), " ", "_")
 		}
-		c08Pool.Put(vm)
+		if f[1] != "A=" {
+			c08Pool.Put(vm) // a history on Array.prototype itself leaves the runtime changed: it is dropped
+		}
 		s, _ := v.ToString()
 		return s
 	}
@@ -442,6 +482,17 @@ func genC08(c *h.Ctx) {
 	// scripted value, mutate the receiver or throw), array-like receivers whose length is such an object
 	for i := 0; i < c.N(12000, 400000); i++ {
 		genOrder(c)
+	}
+	// 7. primitive receivers (ToObject(this): the callbacks and the return value must see the same wrapper object),
+	// Array.prototype itself as the array, toString, object-valued length values
+	for i := 0; i < c.N(6000, 200000); i++ {
+		genPrim(c)
+	}
+	for i := 0; i < c.N(1500, 40000); i++ {
+		genProtoHistory(c)
+	}
+	for i := 0; i < c.N(3000, 100000); i++ {
+		genLenValue(c)
 	}
 	// 4. length scenarios: non-configurable elements, non-writable length, then length changes
 	for i := 0; i < c.N(6000, 150000); i++ {
@@ -893,4 +944,145 @@ func genOrder(c *h.Ctx) {
 		line += " call/" + m + "/" + strings.Join(args, ",") + "/" + strings.Join(rets, ",") + "/" + strings.Join(script, ",")
 	}
 	c.Add(line, "order")
+}
+
+var c08Prims = []string{sTok("ab"), sTok("ab"), sTok(""), sTok("abc"), sTok("a"), dTok(5), dTok(0), dTok(-1.5), "T", "F"}
+
+// genPrim: every method through .call on a primitive receiver.
+func genPrim(c *h.Ctx) {
+	r := c.Rng
+	recv := c08Prims[r.Intn(len(c08Prims))]
+	line := "h v=" + recv + " p="
+	n := 3
+	for st := 1 + r.Intn(2); st > 0; st-- {
+		m := append(append([]string{}, c08Methods...), "sort", "sortNum")[r.Intn(len(c08Methods)+2)]
+		var args, rets []string
+		switch m {
+		case "push", "unshift":
+			for j := r.Intn(3); j > 0; j-- {
+				args = append(args, genElem(r))
+			}
+		case "slice":
+			for j := r.Intn(3); j > 0; j-- {
+				args = append(args, genNumArg(r, n))
+			}
+		case "splice":
+			for j := r.Intn(4); j > 0; j-- {
+				args = append(args, genNumArg(r, n))
+				if len(args) == 2 {
+					break
+				}
+			}
+		case "indexOf", "lastIndexOf":
+			args = append(args, []string{sTok("a"), sTok("b"), genElem(r)}[r.Intn(3)])
+			if r.Chance(40) {
+				args = append(args, genNumArg(r, n))
+			}
+		case "join":
+			if r.Chance(50) {
+				args = append(args, []string{sTok("-"), sTok(""), "u"}[r.Intn(3)])
+			}
+		case "concat":
+			for j := r.Intn(3); j > 0; j-- {
+				args = append(args, genElem(r))
+			}
+		case "every", "some", "forEach", "map", "filter", "reduce", "reduceRight":
+			if (m == "reduce" || m == "reduceRight") && r.Chance(50) {
+				args = append(args, genElem(r))
+			}
+			for j := r.Intn(4); j > 0; j-- {
+				rets = append(rets, genElem(r))
+			}
+			if r.Chance(6) {
+				m += "!"
+			}
+		}
+		line += " call/" + m + "/" + strings.Join(args, ",") + "/" + strings.Join(rets, ",")
+	}
+	c.Add(line, "prim")
+}
+
+// genProtoHistory: Array.prototype itself is an array (ES5 15.4.4): a history on it in a fresh runtime.
+func genProtoHistory(c *h.Ctx) {
+	r := c.Rng
+	line := "h A= p="
+	tri := func() string { return []string{"1", "0", "-", "1"}[r.Intn(4)] }
+	for st := 1 + r.Intn(4); st > 0; st-- {
+		switch r.Intn(8) {
+		case 0, 1:
+			line += fmt.Sprintf(" put/%s/%s", kTok(strconv.Itoa(r.Intn(5))), genElem(r))
+		case 2:
+			lv := []string{dTok(float64(r.Intn(6))), dTok(-1), dTok(1.5), dTok(4294967296), sTok("2"), "u", dTok(0)}[r.Intn(7)]
+			line += " put/" + kTok("length") + "/" + lv
+			if lv == dTok(-1) || lv == dTok(1.5) || lv == dTok(4294967296) || lv == "u" {
+				// a RangeError is expected; should the value be stored instead, no later step may iterate over it
+				st = 1
+			}
+		case 3:
+			line += " del/" + kTok(strconv.Itoa(r.Intn(5)))
+		case 4:
+			line += fmt.Sprintf(" def/%s/%s/%s/%s/%s", kTok(strconv.Itoa(r.Intn(5))), genElem(r), tri(), tri(), tri())
+		case 5:
+			line += " def/" + kTok("length") + "/" + dTok(float64(r.Intn(5))) + "/" + tri() + "/-/-"
+		default:
+			m := []string{"push", "pop", "shift", "unshift", "reverse", "slice", "join", "indexOf", "concat", "forEach"}[r.Intn(10)]
+			args, rets := "", ""
+			switch m {
+			case "push", "unshift", "indexOf":
+				args = genElem(r)
+			case "forEach":
+				rets = "u,u,u"
+			}
+			line += " call/" + m + "/" + args + "/" + rets
+		}
+	}
+	c.Add(line, "arrayproto")
+}
+
+// genLenValue: the length of an array is set to / defined with a scripted object, and toString is called.
+func genLenValue(c *h.Ctx) {
+	r := c.Rng
+	n := r.Intn(6)
+	es := make([]string, n)
+	for i := range es {
+		if r.Chance(20) {
+			es[i] = "_"
+		} else {
+			es[i] = genElem(r)
+		}
+	}
+	line := "h a=" + strings.Join(es, ",") + " p="
+	res := func() string {
+		switch k := r.Intn(14); {
+		case k == 0:
+			return "!T"
+		case k == 1:
+			return []string{"u", dTok(1.5), dTok(-1), sTok("2"), dTok(math.NaN()), dTok(4294967296), sTok("x")}[r.Intn(7)]
+		}
+		return dTok(float64(r.Intn(n + 3)))
+	}
+	if r.Chance(15) {
+		line += []string{" frz", " def/" + kTok("length") + "/-/0/-/-", " noext"}[r.Intn(3)]
+	}
+	for st := 1 + r.Intn(2); st > 0; st-- {
+		switch r.Intn(5) {
+		case 0, 1:
+			a, b := res(), res()
+			if r.Chance(60) {
+				b = a
+			}
+			line += " put/" + kTok("length") + "/O1/-~" + a + ",-~" + b
+		case 2:
+			a, b := res(), res()
+			if r.Chance(60) {
+				b = a
+			}
+			line += " def/" + kTok("length") + "/O1/" + []string{"1", "0", "-"}[r.Intn(3)] + "/-/-/-~" + a + ",-~" + b
+		case 3:
+			line += " call/toString/" + []string{"", sTok("-"), "u", sTok(""), dTok(1)}[r.Intn(5)] + "/"
+		default:
+			line += fmt.Sprintf(" put/%s/%s", kTok(strconv.Itoa(r.Intn(n+2))), genElem(r))
+		}
+	}
+	c.Add(line, "lenvalue")
 }
